@@ -181,6 +181,19 @@ func forms(p, hp string, rnd *rand.Rand, nRandom int) []form {
 	add("case-variant", "case/first-segment-upper", "/"+strings.ToUpper(first)+rest)
 	add("case-variant", "case/all-upper", strings.ToUpper(p))
 	add("case-variant", "case/rest-upper", seg+strings.ToUpper(rest))
+	// hostile values in the position of a path parameter (last segment): the router sees one encoded segment, code that looks at the
+	// decoded path sees slashes, dot segments or something that looks like a URL
+	if i := strings.LastIndex(p, "/"); i > len(seg) {
+		base := p[:i+1]
+		for _, v := range []struct{ n, val string }{
+			{"url-with-encoded-slashes", "x:%2F%2Fexample.com%2Fiam"}, {"http-url-encoded-slashes", "http:%2F%2Fx%2Fstatus"},
+			{"fully-encoded-url", "a%3A%2F%2Fb%2Fc"}, {"encoded-dotdot-to-status", "..%2F..%2F..%2F..%2Fstatus"},
+			{"encoded-dots-and-slashes", "%2e%2e%2f%2e%2e%2fstatus"}, {"did-web-with-port", "did:web:localhost%253A8080:iam:x"},
+			{"scheme-then-public-path", "https:%2F%2Fx%2Foauth2%2Fy"}, {"encoded-question-mark-url", "x%3Fy=http:%2F%2Fz%2F"},
+		} {
+			add("param-value", "param-value/"+v.n, base+v.val)
+		}
+	}
 	// ;params
 	add("path-params", "params/first-segment", seg+";a=b"+rest)
 	add("path-params", "params/last-segment", p+";a=b")
